@@ -22,6 +22,7 @@ import time
 import types
 
 T_STEP = 5.0      # every wait is bounded by this many seconds
+MAX_RENDER_POSTPONE = 1e6      # Application(max_render_postpone_time=...), see Rig.__init__
 
 
 class RigTimeout(Exception):
@@ -313,8 +314,16 @@ class Rig:
             cm2 = create_app_session(input=self.inp, output=self.out)
             self.session = cm2.__enter__()
             self._cms.append(cm2)
+        # Application.invalidate() (here: the key binding that handles a cursor position report)
+        # schedules its redraw with max_postpone_time: it is put off while the loop has other work,
+        # but at most max_render_postpone_time (default 0.01 s) - on a loaded machine the deadline
+        # can pass before the section woken by the same report has resumed, and the render then
+        # comes first.  Both orders meet the property; the model has "section first".  The rig pins
+        # the Application's own constructor parameter so that the order does not depend on the
+        # machine's load (the redraw runs when the loop has nothing else to do).
         self.app = Application(layout=Layout(Window(FormattedTextControl("PROMPT> "))),
-                               input=self.inp, output=self.out)
+                               input=self.inp, output=self.out,
+                               max_render_postpone_time=MAX_RENDER_POSTPONE)
         self._wrap_renderer()
         self._wrap_cpr()
         logging.getLogger("asyncio").setLevel(logging.CRITICAL)
@@ -548,7 +557,10 @@ class Rig:
                        and any(e[0] == "r" for e in self.events[self._ev0:]), "application did not start")
             self.settle()
         elif k == 9:
-            self.host.loop.call_soon_threadsafe(self.app.exit)
+            if self._exit_called:      # after AppDone exit() has been called already: only the resumption is left
+                self._exit_called = False
+            else:
+                self.host.loop.call_soon_threadsafe(self.app.exit)
             self._poll(lambda: not self.app._is_running, "application did not exit")
             if self.loop_running():
                 try:
@@ -617,7 +629,32 @@ class Rig:
         else:
             raise ValueError(lab)
 
+    def do_window(self, n):
+        """AppDone followed by n LoopSteps: the window between Application.exit() and run_async
+        resuming.  asyncio's ready queue is [callback 1 .. callback n, the callback calling
+        exit()] in ONE iteration: the run_in_terminal tasks the callbacks create are scheduled
+        before the wake-up of run_async, so their bodies run with is_done and _is_running both
+        True.  (The following AppExit label waits for the resumption.)"""
+        cbs = [self.loop_pending.popleft() for _ in range(n)]
+
+        err, called = [], []
+
+        def window():
+            try:
+                for (lp, cb, args, cctx, txt) in cbs:
+                    cctx.run(cb, *args)
+                self.app.exit()
+                called.append(1)
+            except BaseException as e:  # noqa
+                err.append(e)
+        self.host.loop.call_soon_threadsafe(window)
+        self._poll(lambda: called or err, "exit() was not called")
+        self._exit_called = True
+        if err:
+            raise RigTimeout("exit()..resume window failed: %r" % (err[0],))
+
     _ev0 = 0
+    _exit_called = False
 
     def mark(self):
         self._ev0 = len(self.events)
@@ -656,7 +693,8 @@ class Rig:
                 int(self.session.app is not None and self.session.app.loop is not None),
                 int(bool(self.app._is_running)), int(lf is not None and not lf.done()),
                 int(bool(self.app._running_in_terminal)), sum(1 for e in self.events if e[0] != "F"),
-                len(self.app.renderer._waiting_for_cpr_futures), int(self.cpr_waiting_sections > 0)]
+                len(self.app.renderer._waiting_for_cpr_futures), int(self.cpr_waiting_sections > 0),
+                int(bool(self.app.is_done))]
 
     def _chosen_loop(self):
         fr = sys._current_frames().get(self.fthread.ident)
